@@ -39,7 +39,12 @@ func drawRuntimeScript(t *Tape, T time.Duration) ([]Op, bool) {
 		case 12:
 			ops = append(ops, Op{Kind: "exit", N: []int{0, 1, KillSignal, -11}[t.Draw(4)]})
 		case 13:
-			ops = append(ops, Op{Kind: "truncated-response", Arg: "cur", N: 1})
+			if t.Chance(1, 2) {
+				// uploads half of the body and then nothing more (the process lives on)
+				ops = append(ops, Op{Kind: "stalled-upload", Arg: []string{"response", "error"}[t.Draw(2)]})
+			} else {
+				ops = append(ops, Op{Kind: "truncated-response", Arg: "cur", N: 1})
+			}
 		case 14:
 			ops = append(ops, Op{Kind: "next-die", N: t.Draw(2)})
 		case 15:
